@@ -15,6 +15,13 @@ import (
 func (els *EncryptedLeaseSet) Verify() error {
 	log.Debug("Verifying EncryptedLeaseSet signature")
 
+	// ReadEncryptedLeaseSet hands back the fully parsed value together with the error when the
+	// structure is invalid (zero expires offset, reserved flag bits, ...); such a value must not
+	// be reported as verified just because its bytes happen to be signed.
+	if err := els.Validate(); err != nil {
+		return oops.Errorf("cannot verify an invalid EncryptedLeaseSet: %w", err)
+	}
+
 	// Serialize: type byte + content without signature
 	dataToVerify, err := els.dataForSigning()
 	if err != nil {
